@@ -9,6 +9,7 @@ contract driver (rtc) -> evidence + VIOLATION / KNOWN-FINDING lines + exit code.
 Exit codes: 0 held, 1 violation, 2 undecided, 3 checker crash.
 """
 import argparse
+import hashlib
 import json
 import multiprocessing as mp
 import os
@@ -190,7 +191,11 @@ def run_rtc(prop, tier, seed):
     drv = os.path.join(VERIF, 'vf', 'rtc', 'drivers', f'{prop}.py')
     if not os.path.exists(drv):
         return None
-    out = os.path.join(OUT, f'{prop}.rtc.json')
+    # scratch trees get their own intermediate file, so that a run against one never collides
+    # with a concurrent run against /repo
+    tag = '' if os.path.abspath(REPO) == '/repo' else \
+        '.' + hashlib.md5(os.path.abspath(REPO).encode()).hexdigest()[:8]
+    out = os.path.join(OUT, f'{prop}{tag}.rtc.json')
     if os.path.exists(out):
         os.remove(out)
     env = dict(os.environ, PYTHONPATH=PYPATH, OMP_NUM_THREADS='1', OPENBLAS_NUM_THREADS='1')
